@@ -2,7 +2,7 @@
 from . import helpers_rules as H
 
 META = {
-    'claim_added': 'Also decided: writes are dominated by the kind test of the attribute; every item/entry yields exactly one entry of the result; wrap and short-form conditions compared as canonical guard sets; built nodes carry plain tags. Round 3: attribute lookup is by the exact key text (R15.9).',
+    'claim_added': 'Also decided: writes are dominated by the kind test of the attribute; every item/entry yields exactly one entry of the result; wrap and short-form conditions compared as canonical guard sets; built nodes carry plain tags. Round 3: attribute lookup is by the exact key text (R15.9). Round 6 (E14): caches on the code this property is about are invisible - no value that lives in a memo cell (dict / lazily filled attribute / lru_cache) is modified by the code it is handed to, the key of a cell contains every input its value depends on, no mutable parameter default is modified or handed out; given that, the program is analysed as if every lookup missed.',
     'level': 'other',
     'technique': 'static: typestate mined from the docstrings ("Use only if is_mapping() returns True") checked by dominance of '
                  'kind tests on the same receiver; reachability from node writes to do-nothing exits; decision atoms of the '
